@@ -106,6 +106,25 @@ def build(tier):
                             "len(agent.steps) == old(len(agent.steps))", "total_steps == old(total_steps) + env_steps"],
                    replay="c20:counters")
 
+    # train_bandits: one environment, one step per iteration
+    def bandit_setup(ex, st, fr):
+        setup(ex, st, fr)
+        st.assume(st.locals["num_envs"] == 1)
+        ep = z3.Int("episode_steps")
+        st.assume(ep >= 0)
+        st.locals["episode_steps"] = ep
+    owner, m, f = front.find_function(TR + "train_bandits.train_bandits")
+    loops = sorted([x for x in ast.walk(f) if isinstance(x, (ast.For, ast.While))], key=lambda x: (x.lineno, x.col_offset))
+    ords = [i for i, x in enumerate(loops) if isinstance(x, ast.For) and ast.unparse(x.iter) == "range(episode_steps)"]
+    P.contract(TR + "train_bandits.train_bandits", variant="step-counter", setup=bandit_setup, region=agent_loop_slice,
+               params={p.arg: "opaque" for p in f.args.args + f.args.kwonlyargs if p.arg not in ("episode_steps",)},
+               requires=[], frame_fields=False,
+               loops={o: dict(invariant=["env_steps == _k", "len(agent.steps) == old(len(agent.steps))", "last(agent.steps) == old(last(agent.steps))",
+                                         "total_steps == old(total_steps)"], havoc_names=["env_steps"]) for o in ords},
+               ensures=["last(agent.steps) == old(last(agent.steps)) + env_steps", "len(agent.steps) == old(len(agent.steps))",
+                        "total_steps == old(total_steps) + env_steps"],
+               replay="c20:counters")
+
     def wiring():
         bad = []
         for mod in ("train_off_policy", "train_on_policy", "train_multi_agent_off_policy", "train_multi_agent_on_policy"):
@@ -157,5 +176,5 @@ def build(tier):
     P.assumptions += ["num_envs is the number of sub-environments stepped by one env.step call"]
     P.uncovered += ["first sentence of the property (every algorithm runs to completion on any compatible environment/buffer; sampler output accepted by learn(); "
                     "checkpointing) - whole-program composition, not decidable by function contracts",
-                    "train_offline, train_bandits accounting", "elitism carries the best agent unchanged (C05 + C02)", "distinct indices of the returned population (C05)"]
+                    "train_offline (no environment steps are taken; its counter counts learn steps)", "elitism carries the best agent unchanged (C05 + C02)", "distinct indices of the returned population (C05)"]
     return P
